@@ -553,6 +553,7 @@ def day_readback(ck, S, rid):
 
     def scenario(fn):
         """the sink has logged on day D (daily rotation, initialised, non-empty file) and today is D+1"""
+        daily = S.option_pred("RotationDaily", fn)
         def is_today(x):
             return is_call(skip_copies(deref_local(fn, x)), "QDate::currentDate")
 
